@@ -53,8 +53,9 @@ Definition norm (c : cfg) (k : key) : key :=
 
 (* ---- state ----------------------------------------------------------- *)
 
-(* SubmodelElementList: type_value_list_element (0 = Property, 1 = Range, >= 2 other classes),
-   value_type_list_element (a token), semantic_id_list_element *)
+(* SubmodelElementList: type_value_list_element (0 = Property, 1 = Range, 2 = MultiLanguageProperty,
+   3.. = other concrete classes; abstract: 10 = SubmodelElement, 11 = DataElement,
+   12 = EventElement), value_type_list_element (a token), semantic_id_list_element *)
 Record lcfg := mklcfg { l_cls : nat; l_vt : nat; l_sem : option nat }.
 
 Record elem := mkelem {
@@ -211,8 +212,21 @@ Fixpoint check_114 (m : nat) (existing : list elem) : outcome :=
               | None => check_114 m r
               end
   end.
+(* isinstance(new, abstract class) for the classes of the pools: every element is a
+   SubmodelElement; Property, Range and MultiLanguageProperty are DataElements; none is an
+   EventElement *)
+Definition is_instance (ecls lcls : nat) : bool :=
+  match lcls with
+  | 10 => true
+  | 11 => ecls <? 3
+  | _ => false
+  end.
+(* type(new) is type_value_list_element, or that is one of the three abstract classes and
+   isinstance(new, it) *)
+Definition cls_ok (lc : lcfg) (el : elem) : bool :=
+  Nat.eqb (e_cls el) (l_cls lc) || is_instance (e_cls el) (l_cls lc).
 Definition check_constraints (lc : lcfg) (el : elem) (existing : list elem) : outcome :=
-  if negb (Nat.eqb (e_cls el) (l_cls lc)) then Err (EAasd 108) else
+  if negb (cls_ok lc el) then Err (EAasd 108) else
   if match l_sem lc, e_sem el with Some a, Some b => negb (Nat.eqb a b) | _, _ => false end
   then Err (EAasd 107) else
   if (l_cls lc <? 2) && negb (Nat.eqb (e_vt el) (l_vt lc)) then Err (EAasd 109) else
